@@ -52,8 +52,8 @@ class C17(Case):
                     q = an(entity(conc))
                 else:
                     x = let(Elem, domain=outer)
-                    c = in_(x, conc) if kind in ("in", "not_in") else contains(conc, x)
-                    if kind.startswith("not"):
+                    c = in_(x, conc) if kind in ("in", "not_in", "not_not_in", "not_not_not_in") else contains(conc, x)
+                    for _ in range(kind.count("not_")):
                         c = not_(c)
                     q = an(entity(x, c))
             res = list(q.evaluate())
@@ -118,7 +118,7 @@ class C17(Case):
                     want = [next(j for j, e in enumerate(outer) if e is cand) for cand, pres in slots if pres]
                     obs.append((tag + ":value_is_the_ordered_concatenation_with_multiplicity", alg.const(L == want)))
             else:
-                neg = self.spec["kind"].startswith("not")
+                neg = self.spec["kind"].count("not_") % 2 == 1
                 obs.append((tag + ":rows_in_outer_domain_order_each_once", alg.const(all(i >= 0 for i in view) and all(a < b for a, b in zip(view, view[1:])))))
                 for m, xo in enumerate(outer):
                     member = alg.or_(*[pres for cand, pres in slots if cand is xo])
@@ -134,6 +134,8 @@ def make_case(spec):
 def shapes(tier, seed):
     out = []
     nc = 3 if tier == "quick" else 4
+    for kind in ("not_not_in", "not_not_contains", "not_not_not_in"):
+        out.append(dict(kind=kind, parents=2, cands=nc))
     for kind in ("value", "in", "not_in", "contains", "not_contains"):
         for parents in (1, 2, 3):
             for repeat in (False, True):
